@@ -79,6 +79,18 @@ def rule_watford_guard(prog, fixture=False):
                 for x in walk(init):
                     if x.get("k") == "VarDecl" and x.get("c") and x.get("w") and folded(x["c"][0]) is not None:
                         env[x["d"]] = BV.const(folded(x["c"][0]), x["w"])
+                    elif x.get("k") == "VarDecl" and x.get("c") and x.get("w") and "cond" in loop["parts"]:
+                        # a loop that counts down from a value read from the catalogue: every pass applies the same
+                        # formula to its entry number, so the pass at the loop's lower bound stands for all
+                        conj = [strip_all(loop["c"][loop["parts"]["cond"]])]
+                        while conj and conj[0] is not None and conj[0].get("k") == "BinaryOperator" and conj[0].get("op") == "&&":
+                            c0 = conj.pop(0)
+                            conj = [strip_all(c0["c"][0]), strip_all(c0["c"][1])] + conj
+                        for cnd in conj:
+                            if cnd is not None and cnd.get("k") == "BinaryOperator" and (strip_all(cnd["c"][0]) or {}).get("d") == x["d"] \
+                                    and folded(cnd["c"][1]) is not None and cnd.get("op") in (">=", ">", "!="):
+                                lo = folded(cnd["c"][1]) + (0 if cnd["op"] == ">=" else 1)
+                                env[x["d"]] = BV.const(lo, x["w"])
                     elif x.get("k") == "BinaryOperator" and x.get("op") == "=" and folded(x["c"][1]) is not None:
                         t = strip_all(x["c"][0])
                         if t.get("k") == "DeclRefExpr" and t.get("w"):
@@ -135,10 +147,19 @@ def rule_decision_table(prog, fixture=False):
     for fn in prog.fnby("probe_format", required=not fixture):
         g = Guards(fn)
         for n in fn.walk():
-            if n.get("k") != "ReturnStmt" or not n.get("c"):
+            # an identifying point: `return <something naming Format::X>`, or the place where the result that is
+            # returned later is given its value (`result.emplace(Format::X, ...)`, `result = make_pair(Format::X, ...)`)
+            src = None
+            if n.get("k") == "ReturnStmt" and n.get("c"):
+                src = n["c"][0]
+            elif n.get("k") == "CXXMemberCallExpr" and (strip(n["c"][0]) or {}).get("n") in ("emplace", "reset", "assign"):
+                src = n
+            elif n.get("k") == "CXXOperatorCallExpr" and n.get("op") == "=" and len(n["c"]) == 3:
+                src = n["c"][2]
+            if src is None:
                 continue
             fmt = None
-            for x in walk(n["c"][0]):
+            for x in walk(src):
                 if x.get("k") == "DeclRefExpr" and x.get("dk") == "EnumConstant" and "Format" in (x.get("q") or ""):
                     fmt = x.get("n")
             if fmt is None:
